@@ -81,9 +81,9 @@ type Cfg struct {
 	KeySeed     int64   `json:"KeySeed"`
 	Exported    bool    `json:"Exported"`   // the pos genesis is an export (carries previous-state powers)
 	PrevPowers  []int64 `json:"PrevPowers"` // per user id: previous-state power in an exported genesis (-1 none)
-	Pruning     string  `json:"Pruning"` // nothing|everything|syncable|kr,ke
-	DBDir       string  `json:"DBDir"`   // "" = MemDB, else goleveldb dir
-	MaxGas      int64   `json:"MaxGas"`  // consensus param Block.MaxGas given to InitChain (0 = no block gas limit)
+	Pruning     string  `json:"Pruning"`    // nothing|everything|syncable|kr,ke
+	DBDir       string  `json:"DBDir"`      // "" = MemDB, else goleveldb dir
+	MaxGas      int64   `json:"MaxGas"`     // consensus param Block.MaxGas given to InitChain (0 = no block gas limit)
 	ChainID     string  `json:"ChainID"`
 	Version     string  `json:"Version"`
 }
